@@ -420,7 +420,7 @@ def check_strings(strings):
             raise Discard("string outside domain")
 
 
-STATE_CAP = 150
+STATE_CAP = 48
 
 
 def flat_alternatives(expr, out):
@@ -636,13 +636,9 @@ KF2 = "C31-KF2"  # compile(): KeyError when the NULL (error) state is unreachabl
 KF3 = "C31-KF3"  # '|' of derivatives is not normalised (ACI): compile('(aa+)*') never terminates
 
 
-def loop_over_cat(ast, inside=False):
-    if ast[0] in ("set", "dot"):
-        return False
-    if ast[0] == "cat" and inside:
-        return True
-    inside = inside or ast[0] in ("star", "plus")
-    return any(loop_over_cat(x, inside) for x in ast[1:])
+def loop_and_cat(ast):
+    ops = operators(ast)
+    return "cat" in ops and ("star" in ops or "plus" in ops)
 
 
 def no_dead_state(ast, alphabet):
@@ -661,15 +657,15 @@ def classify_failure(case, f):
          expression as the defective grammar reads it (or that grammar's 'Expected ) but got x').
     KF2: KeyError at compiler.py:compile for an expression with '.' whose language (as read by
          either grammar) has no dead state.
-    KF3: derivative-state explosion for an expression with a loop over a concatenation, where the
+    KF3: derivative-state explosion for an expression with a loop and a concatenation, where the
          runaway derivative is an alternation with repeated operands."""
     if f is None:
         return None
     pats = [case["pattern"]] if "pattern" in case else [p for _n, p in case["tokens"]]
     if f.kind == "explosion":
-        # KF3: a loop over a concatenation, and the runaway derivative repeats operands of '|'
+        # KF3: a loop and a concatenation, and the runaway derivative repeats operands of '|'
         try:
-            if f.info["duplicates"] > 0 and any(loop_over_cat(ref_parse(p)) for p in pats):
+            if f.info["duplicates"] > 0 and any(loop_and_cat(ref_parse(p)) for p in pats):
                 return KF3
         except Unsupported:
             pass
@@ -837,28 +833,36 @@ def atom_strategy(allow_dot):
 
 
 @st.composite
-def gen_ast(draw, size, flags, in_loop=False, level="top"):
+def gen_ast(draw, size, flags, in_loop=False, level="top", ban=()):
     """level (only with avoid_kf1): 'top' may be a concatenation, 'elem' may not."""
     avoid_kf1, avoid_kf2, avoid_kf3 = flags
     if size <= 1:
         return draw(atom_strategy(not (avoid_kf2 and in_loop)))
     kinds = ["star", "plus", "opt", "alt", "alt"]
-    if not (avoid_kf1 and level != "top") and not (avoid_kf3 and in_loop):
+    if not (avoid_kf1 and level != "top"):
         kinds += ["cat", "cat", "cat"]
+    # KF3 exclusion: the expression has either no concatenation or no loop (ban is drawn per case)
+    kinds = [k for k in kinds if k not in ban]
     k = draw(st.sampled_from(kinds))
     if k in UNARY:
-        x = draw(gen_ast(size - 1, flags, in_loop or k != "opt", "elem"))
+        x = draw(gen_ast(size - 1, flags, in_loop or k != "opt", "elem", ban))
         return (k, x)
     ls = draw(st.integers(1, size - 2)) if size > 2 else 1
     rs = max(1, size - 1 - ls)
     if k == "cat":
-        x = draw(gen_ast(ls, flags, in_loop, "top"))
-        y = draw(gen_ast(rs, flags, in_loop, "elem" if avoid_kf1 else "top"))
+        x = draw(gen_ast(ls, flags, in_loop, "top", ban))
+        y = draw(gen_ast(rs, flags, in_loop, "elem" if avoid_kf1 else "top", ban))
         return ("cat", x, y)
     sub = "elem" if avoid_kf1 else "top"
-    x = draw(gen_ast(ls, flags, in_loop, sub))
-    y = draw(gen_ast(rs, flags, in_loop, sub))
+    x = draw(gen_ast(ls, flags, in_loop, sub, ban))
+    y = draw(gen_ast(rs, flags, in_loop, sub, ban))
     return ("alt", x, y)
+
+
+def kf3_ban(flags):
+    if flags[2]:
+        return st.sampled_from([("cat",), ("star", "plus")])
+    return st.just(())
 
 
 @st.composite
@@ -883,7 +887,7 @@ def gen_member(draw, ast, depth=0):
 @st.composite
 def gen_case(draw, maxsize, flags):
     size = draw(st.integers(3, maxsize))
-    ast = draw(gen_ast(size, flags))
+    ast = draw(gen_ast(size, flags, ban=draw(kf3_ban(flags))))
     avoid_kf1 = flags[0]
     full = draw(st.integers(0, 3)) == 0
     # under the KF1 exclusion the AST has concatenations only on the top-level spine, so the
@@ -913,8 +917,12 @@ def gen_token_case(draw, flags):
     n = draw(st.integers(2, 3))
     toks = []
     for i in range(n):
-        ast = draw(gen_ast(draw(st.integers(1, 5)), flags))
-        toks.append(["t%d" % i, render(ast)])
+        ast = draw(gen_ast(draw(st.integers(1, 5)), flags, ban=draw(kf3_ban(flags))))
+        p = render(ast)
+        if ref_match(ref_parse(p), ""):
+            # token expressions must not be nullable: append a literal
+            p = render(("cat", ast, ("atom", draw(st.sampled_from("ab")))))
+        toks.append(["t%d" % i, p])
     members = []
     for _n, p in toks:
         members.append(draw(gen_member(ref_parse(p))))
